@@ -195,10 +195,19 @@ func newWorld(c CaseC08) *world {
 		w.sources = append(w.sources, s)
 		w.live = append(w.live, &reader{sr: sr, srcs: map[int][]conv{id: nil}, last: map[int]int{id: 0}})
 	}
+	// array sources are consecutive sub-slices of one backing array (the way a caller cuts a slice into
+	// batches): each has spare capacity that overlaps its neighbours, and the readers must never write there
+	total := 0
+	for _, n := range c.Arrays {
+		total += n
+	}
+	backing := make([]int, total, total+4)
+	off := 0
 	for _, n := range c.Arrays {
 		id++
 		s := &source{id: id, isArray: true, closeIss: true}
-		arr := make([]int, n)
+		arr := backing[off : off+n]
+		off += n
 		for k := 0; k < n; k++ {
 			arr[k] = id*1000 + k + 1
 			s.issued = append(s.issued, item{val: arr[k]})
